@@ -1,5 +1,5 @@
 """C06  Decoding arbitrary bytes terminates with a documented outcome (fault enumeration + cross-type closure; no model needed)."""
-from .. import cases, faults, faultspace, impl, loader, oracle
+from .. import bscope, cases, faults, faultspace, impl, loader, oracle
 from ..ref import values as V
 from ..runner import Acc
 
@@ -9,6 +9,10 @@ ASSUMPTIONS = [
     "termination is checked by a bound on events per input byte and by counting the bytes pulled from the source (a per-unit wall-clock limit backs it up)",
     "a Response is only decoded with a command code of the table (the command line refuses a response without its command, C19)",
 ]
+
+
+B_STRICT = ('escape', 'outside-escape', 'pulled')
+B_WARN = ()
 
 
 def units(tier, seed):
@@ -25,6 +29,7 @@ def units(tier, seed):
     step = 8 if tier == "quick" else 1
     for i in range(0, len(ccs), step):
         us.append({"kind": "cross", "mode": "cross-response", "ccs": ccs[i : i + step], "label": "as:Response/" + ccs[i], "seed": seed, "tier": tier})
+    us += bscope.units(tier, seed)
     return us
 
 
@@ -65,6 +70,8 @@ def default_encodings(seed):
 
 
 def run_unit(unit):
+    if unit["kind"] == "bscope":
+        return bscope.run_b_unit(unit, strict_own=B_STRICT, warn_props=B_WARN)
     acc = Acc()
     loader.load()
     seed = unit["seed"]
@@ -129,6 +136,8 @@ def finish(acc, tier, seed):
 
 
 def replay(case):
+    if case.get("harness") == "bytestep":
+        return bscope.replay(case, strict_own=B_STRICT, warn_props=B_WARN)
     acc = Acc()
     loader.load()
     judge(acc, case["root"], bytes.fromhex(case["input"]), case.get("cc"), case.get("enc"), lambda: case, "replay")
